@@ -4,8 +4,8 @@ Loop invariants have to mention the locals a loop works with (`lastpos`, `out`, 
 changes nothing in the behaviour, and the proof must survive it.  The contract names are the names of the locals in the BASELINE
 source of the function (a snapshot of its unparsed text, `contracts/baseline/`, taken when the contract was written).  When the
 current source no longer assigns a name the contract uses, the name is matched to the current local that is assigned from the same
-expressions (compared with the still-unmatched locals blanked out); the match has to be unique, otherwise nothing is renamed and the
-function is reported `undecided` as before.  A wrong match cannot make a proof pass that should fail in any way other than by proving
+expressions (compared with the still-unmatched locals blanked out; when the edit also introduced or inlined a local, the candidate sharing the
+most defining expressions); the match has to be unique, otherwise nothing is renamed and the function is reported `undecided` as before.  A wrong match cannot make a proof pass that should fail in any way other than by proving
 an invariant about the wrong variable; invariants about the wrong variable of the same defining expressions are still true facts
 about the code, and every postcondition is stated over parameters and results only.
 """
@@ -98,7 +98,22 @@ def recover(key: str, current_fn, needed: set[str]) -> dict[str, str]:
         changed = False
         for b in sorted(B - set(mapping)):
             sb = _sig(ba[b], mapping, B - set(mapping))
-            cands = [c for c in sorted(C - set(mapping.values())) if _sig(ca[c], {}, C - set(mapping.values())) == sb]
+            free = sorted(C - set(mapping.values()))
+            sigs = {c: _sig(ca[c], {}, C - set(mapping.values())) for c in free}
+            cands = [c for c in free if sigs[c] == sb]
+            if len(cands) != 1:
+                # no exact match (the edit also introduced or inlined a local): the candidate that shares the most defining
+                # expressions, when it is the only one with that score and shares at least one
+                def score(c):
+                    rest = list(sigs[c])
+                    n = 0
+                    for x in sb:
+                        if x in rest:
+                            rest.remove(x)
+                            n += 1
+                    return n
+                best = max((score(c) for c in free), default=0)
+                cands = [c for c in free if score(c) == best] if best >= 1 else []
             if len(cands) == 1:
                 mapping[b] = cands[0]
                 changed = True
